@@ -44,7 +44,8 @@ Record cfg := mkCfg {
   c_cap : Z;               (* max_in_flight_bytes as passed (capacity = budget_capacity c_cap) *)
   c_chunk : Z;             (* _core._EXTERNAL_TENSOR_COPY_CHUNK_SIZE in force *)
   c_outer : bool;          (* sharded: callbacks additionally wrapped in the outer callback lock *)
-  c_limit : nat            (* number of shard-driver threads (1 for the single-file writer) *)
+  c_limit : nat;           (* number of shard-driver threads (1 for the single-file writer) *)
+  c_openfail : list nat    (* which attempts (0-based, in order of occurrence) to open a worker descriptor fail with OSError *)
 }.
 
 Definition dummy_task : task := mkTask 0 0 0 [] false false false.
@@ -69,6 +70,7 @@ Inductive wpc : Type :=
 | PCb                        (* inside the user callback *)
 | PCbUnOut (e : bool)        (* leaving the outer with-block; e = an exception is propagating *)
 | PCbUnIn (e : bool)         (* leaving the inner with-block *)
+| POpen                      (* in _thread_file(): this worker has no descriptor yet, about to open(path, "r+b") *)
 | PTLock                     (* at `with self._tensor_write_locks[id(tensor)]:` *)
 | PAcq                       (* in budget.acquire, about to test the guard (initially or after a wake-up) *)
 | PSleep                     (* in condition.wait(): not runnable until notified *)
@@ -96,7 +98,10 @@ Record state := mkState {
   s_tl : nat -> option nat;     (* per tensor object: owner of its write lock *)
   s_files : nat -> list Z;      (* per pool: image of the data file being written *)
   s_cblog : list nat;           (* callbacks invoked so far (task indices, in order) *)
-  s_wlog : list nat             (* completed writes so far (task indices, in order) *)
+  s_wlog : list nat;            (* completed writes so far (task indices, in order) *)
+  s_hopen : nat -> bool;        (* per worker: it holds an open r+b descriptor on its pool's file *)
+  s_nopen : nat;                (* number of attempts to open a worker descriptor so far *)
+  s_evals : nat -> nat          (* per task: how many times the tensor was evaluated (tofile entered) *)
 }.
 
 Definition upd {A} (f : nat -> A) (k : nat) (v : A) : nat -> A :=
@@ -104,22 +109,25 @@ Definition upd {A} (f : nat -> A) (k : nat) (v : A) : nat -> A :=
 
 Definition init : state :=
   mkState (fun _ => TUnsub) (fun _ => WIdle) (fun _ => DNot) (fun _ => false) MWait
-          0%Z false (fun _ => None) None (fun _ => None) (fun _ => []) [] [].
+          0%Z false (fun _ => None) None (fun _ => None) (fun _ => []) [] [] (fun _ => false) 0%nat (fun _ => 0%nat).
 
 (* setters *)
-Definition set_ts s v := mkState v (s_wk s) (s_dr s) (s_cancel s) (s_main s) (s_inflight s) (s_over s) (s_cbin s) (s_cbout s) (s_tl s) (s_files s) (s_cblog s) (s_wlog s).
-Definition set_wk s v := mkState (s_ts s) v (s_dr s) (s_cancel s) (s_main s) (s_inflight s) (s_over s) (s_cbin s) (s_cbout s) (s_tl s) (s_files s) (s_cblog s) (s_wlog s).
-Definition set_dr s v := mkState (s_ts s) (s_wk s) v (s_cancel s) (s_main s) (s_inflight s) (s_over s) (s_cbin s) (s_cbout s) (s_tl s) (s_files s) (s_cblog s) (s_wlog s).
-Definition set_cancel s v := mkState (s_ts s) (s_wk s) (s_dr s) v (s_main s) (s_inflight s) (s_over s) (s_cbin s) (s_cbout s) (s_tl s) (s_files s) (s_cblog s) (s_wlog s).
-Definition set_main s v := mkState (s_ts s) (s_wk s) (s_dr s) (s_cancel s) v (s_inflight s) (s_over s) (s_cbin s) (s_cbout s) (s_tl s) (s_files s) (s_cblog s) (s_wlog s).
-Definition set_inflight s v := mkState (s_ts s) (s_wk s) (s_dr s) (s_cancel s) (s_main s) v (s_over s) (s_cbin s) (s_cbout s) (s_tl s) (s_files s) (s_cblog s) (s_wlog s).
-Definition set_over s v := mkState (s_ts s) (s_wk s) (s_dr s) (s_cancel s) (s_main s) (s_inflight s) v (s_cbin s) (s_cbout s) (s_tl s) (s_files s) (s_cblog s) (s_wlog s).
-Definition set_cbin s v := mkState (s_ts s) (s_wk s) (s_dr s) (s_cancel s) (s_main s) (s_inflight s) (s_over s) v (s_cbout s) (s_tl s) (s_files s) (s_cblog s) (s_wlog s).
-Definition set_cbout s v := mkState (s_ts s) (s_wk s) (s_dr s) (s_cancel s) (s_main s) (s_inflight s) (s_over s) (s_cbin s) v (s_tl s) (s_files s) (s_cblog s) (s_wlog s).
-Definition set_tl s v := mkState (s_ts s) (s_wk s) (s_dr s) (s_cancel s) (s_main s) (s_inflight s) (s_over s) (s_cbin s) (s_cbout s) v (s_files s) (s_cblog s) (s_wlog s).
-Definition set_files s v := mkState (s_ts s) (s_wk s) (s_dr s) (s_cancel s) (s_main s) (s_inflight s) (s_over s) (s_cbin s) (s_cbout s) (s_tl s) v (s_cblog s) (s_wlog s).
-Definition set_cblog s v := mkState (s_ts s) (s_wk s) (s_dr s) (s_cancel s) (s_main s) (s_inflight s) (s_over s) (s_cbin s) (s_cbout s) (s_tl s) (s_files s) v (s_wlog s).
-Definition set_wlog s v := mkState (s_ts s) (s_wk s) (s_dr s) (s_cancel s) (s_main s) (s_inflight s) (s_over s) (s_cbin s) (s_cbout s) (s_tl s) (s_files s) (s_cblog s) v.
+Definition set_ts s v := mkState v (s_wk s) (s_dr s) (s_cancel s) (s_main s) (s_inflight s) (s_over s) (s_cbin s) (s_cbout s) (s_tl s) (s_files s) (s_cblog s) (s_wlog s) (s_hopen s) (s_nopen s) (s_evals s).
+Definition set_wk s v := mkState (s_ts s) v (s_dr s) (s_cancel s) (s_main s) (s_inflight s) (s_over s) (s_cbin s) (s_cbout s) (s_tl s) (s_files s) (s_cblog s) (s_wlog s) (s_hopen s) (s_nopen s) (s_evals s).
+Definition set_dr s v := mkState (s_ts s) (s_wk s) v (s_cancel s) (s_main s) (s_inflight s) (s_over s) (s_cbin s) (s_cbout s) (s_tl s) (s_files s) (s_cblog s) (s_wlog s) (s_hopen s) (s_nopen s) (s_evals s).
+Definition set_cancel s v := mkState (s_ts s) (s_wk s) (s_dr s) v (s_main s) (s_inflight s) (s_over s) (s_cbin s) (s_cbout s) (s_tl s) (s_files s) (s_cblog s) (s_wlog s) (s_hopen s) (s_nopen s) (s_evals s).
+Definition set_main s v := mkState (s_ts s) (s_wk s) (s_dr s) (s_cancel s) v (s_inflight s) (s_over s) (s_cbin s) (s_cbout s) (s_tl s) (s_files s) (s_cblog s) (s_wlog s) (s_hopen s) (s_nopen s) (s_evals s).
+Definition set_inflight s v := mkState (s_ts s) (s_wk s) (s_dr s) (s_cancel s) (s_main s) v (s_over s) (s_cbin s) (s_cbout s) (s_tl s) (s_files s) (s_cblog s) (s_wlog s) (s_hopen s) (s_nopen s) (s_evals s).
+Definition set_over s v := mkState (s_ts s) (s_wk s) (s_dr s) (s_cancel s) (s_main s) (s_inflight s) v (s_cbin s) (s_cbout s) (s_tl s) (s_files s) (s_cblog s) (s_wlog s) (s_hopen s) (s_nopen s) (s_evals s).
+Definition set_cbin s v := mkState (s_ts s) (s_wk s) (s_dr s) (s_cancel s) (s_main s) (s_inflight s) (s_over s) v (s_cbout s) (s_tl s) (s_files s) (s_cblog s) (s_wlog s) (s_hopen s) (s_nopen s) (s_evals s).
+Definition set_cbout s v := mkState (s_ts s) (s_wk s) (s_dr s) (s_cancel s) (s_main s) (s_inflight s) (s_over s) (s_cbin s) v (s_tl s) (s_files s) (s_cblog s) (s_wlog s) (s_hopen s) (s_nopen s) (s_evals s).
+Definition set_tl s v := mkState (s_ts s) (s_wk s) (s_dr s) (s_cancel s) (s_main s) (s_inflight s) (s_over s) (s_cbin s) (s_cbout s) v (s_files s) (s_cblog s) (s_wlog s) (s_hopen s) (s_nopen s) (s_evals s).
+Definition set_files s v := mkState (s_ts s) (s_wk s) (s_dr s) (s_cancel s) (s_main s) (s_inflight s) (s_over s) (s_cbin s) (s_cbout s) (s_tl s) v (s_cblog s) (s_wlog s) (s_hopen s) (s_nopen s) (s_evals s).
+Definition set_cblog s v := mkState (s_ts s) (s_wk s) (s_dr s) (s_cancel s) (s_main s) (s_inflight s) (s_over s) (s_cbin s) (s_cbout s) (s_tl s) (s_files s) v (s_wlog s) (s_hopen s) (s_nopen s) (s_evals s).
+Definition set_wlog s v := mkState (s_ts s) (s_wk s) (s_dr s) (s_cancel s) (s_main s) (s_inflight s) (s_over s) (s_cbin s) (s_cbout s) (s_tl s) (s_files s) (s_cblog s) v (s_hopen s) (s_nopen s) (s_evals s).
+Definition set_hopen s v := mkState (s_ts s) (s_wk s) (s_dr s) (s_cancel s) (s_main s) (s_inflight s) (s_over s) (s_cbin s) (s_cbout s) (s_tl s) (s_files s) (s_cblog s) (s_wlog s) v (s_nopen s) (s_evals s).
+Definition set_nopen s v := mkState (s_ts s) (s_wk s) (s_dr s) (s_cancel s) (s_main s) (s_inflight s) (s_over s) (s_cbin s) (s_cbout s) (s_tl s) (s_files s) (s_cblog s) (s_wlog s) (s_hopen s) v (s_evals s).
+Definition set_evals s v := mkState (s_ts s) (s_wk s) (s_dr s) (s_cancel s) (s_main s) (s_inflight s) (s_over s) (s_cbin s) (s_cbout s) (s_tl s) (s_files s) (s_cblog s) (s_wlog s) (s_hopen s) (s_nopen s) v.
 
 Definition set_pc s (w t : nat) (pc : wpc) := set_wk s (upd (s_wk s) w (WRun t pc)).
 
@@ -203,7 +211,16 @@ Definition wstep (c : cfg) (s : state) (w : nat) : option state :=
           Some (set_pc (set_cblog s (s_cblog s ++ [t])) w t
                        (if c_outer c then PCbUnOut e else after_outer c p e))
       | PCbUnOut e => Some (set_pc (set_cbout s None) w t (after_outer c p e))
-      | PCbUnIn e => Some (set_pc (set_cbin s (upd (s_cbin s) p None)) w t (if e then PFin true else PTLock))
+      | PCbUnIn e =>
+          (* after the callback: `self._write_tensor(tensor, _thread_file(), ...)`; _thread_file opens a descriptor
+             the first time this thread gets here *)
+          Some (set_pc (set_cbin s (upd (s_cbin s) p None)) w t
+                       (if e then PFin true else if s_hopen s w then PTLock else POpen))
+      | POpen =>
+          let k := s_nopen s in
+          if existsb (Nat.eqb k) (c_openfail c)
+          then Some (set_pc (set_nopen s (S k)) w t (PFin true))                 (* OSError from open *)
+          else Some (set_pc (set_hopen (set_nopen s (S k)) (upd (s_hopen s) w true)) w t PTLock)
       | PTLock =>
           match s_tl s (tobj c t) with
           | None => Some (set_pc (set_tl s (upd (s_tl s) (tobj c t) (Some w))) w t PAcq)
@@ -221,6 +238,7 @@ Definition wstep (c : cfg) (s : state) (w : nat) : option state :=
             else Some (set_pc s w t PSleep)
       | PSleep => None
       | PWrite r =>
+          let s := set_evals s (upd (s_evals s) t (S (s_evals s t))) in
           if t_wfail (task_of c t) then Some (set_pc s w t (PRel r true))
           else
             let tk := task_of c t in
@@ -259,7 +277,12 @@ Definition dstep (c : cfg) (s : state) (p : nat) : option state :=
       then Some (set_dr (set_cancel s (upd (s_cancel s) p true)) (upd (s_dr s) p (DJoin true)))
       else if all_ok c s p then Some (set_dr s (upd (s_dr s) p (DJoin false)))
       else None
-  | DJoin e => if all_idle c s p then Some (set_dr s (upd (s_dr s) p (DDone e))) else None
+  | DJoin e =>
+      (* shutdown(wait=True) returned; the `finally` closes every descriptor the pool's workers opened *)
+      if all_idle c s p
+      then Some (set_dr (set_hopen s (fun w => if Nat.eqb (wpool c w) p then false else s_hopen s w))
+                        (upd (s_dr s) p (DDone e)))
+      else None
   | DDone _ => None
   end.
 
@@ -311,6 +334,7 @@ Definition ev_code (c : cfg) (s : state) (th : thread) : nat :=
           | PCbIn => 2 | PCbOut => 3
           | PCb => if t_cbfail (task_of c t) then 5 else 4
           | PCbUnOut _ => 6 | PCbUnIn _ => 7 | PTLock => 8
+          | POpen => if existsb (Nat.eqb (s_nopen s)) (c_openfail c) then 19 else 18
           | PAcq =>
               if acquire_is_oversized (need c t) (cap c)
               then (if acquire_oversized_guard (s_over s) then 10 else 11)
@@ -361,13 +385,17 @@ Fixpoint accepted (c : cfg) (s : state) (tr : list ostep) : nat :=
 
 (* whole-run agreement: the trace is a path of the LTS ending in a final state with the observed
    outcome, callback order and (successful runs) the observed files *)
+Definition total_evals (c : cfg) (s : state) : nat := fold_right (fun t a => (s_evals s t + a)%nat) 0%nat (tasks c).
+Definition open_handles (c : cfg) (s : state) : nat := length (filter (s_hopen s) (workers c)).
+
 Definition run_agrees (c : cfg) (tr : list ostep) (raised : bool) (cbs : list nat)
-           (files : list (list Z)) : bool :=
+           (files : list (list Z)) (nopen nevals : nat) : bool :=
   match follow c init tr with
   | Some s =>
       match s_main s with
       | MDeliv e =>
           Bool.eqb e raised && list_eqb Nat.eqb (s_cblog s) cbs &&
+          Nat.eqb (s_nopen s) nopen && Nat.eqb (total_evals c s) nevals && Nat.eqb (open_handles c s) 0%nat &&
           (raised || list_eqb (list_eqb Z.eqb) (map (s_files s) (pools c)) files)
       | MWait => false
       end
